@@ -374,8 +374,8 @@ def build(case: dict) -> dict:
     if decode_on:
         indep, strict, out = stream_status(carried, case["coding"])
         expected = pl
-        if kind == "corruptcode" and indep == "ok":
-            expected = out
+        if kind in ("corruptcode", "trunccode", "cut") and indep == "ok":
+            expected = out           # e.g. a stream cut exactly at a frame end is a complete, shorter body
     else:
         indep, strict, expected = "ok", False, raw
     res["expected"] = expected
